@@ -863,6 +863,9 @@ func joinStr(a []string, sep string) string {
 	return out
 }
 
+// maxZeroRule: rule id under which checkMaxZeroBeforeLoop records (C03 reuses it).
+var maxZeroRule = "R01e"
+
 func (c *Ctx) checkMaxZeroBeforeLoop(info *types.Info, fd *ast.FuncDecl) {
 	key := fd.Name.Name + ":max=0"
 	loopIdx := -1
@@ -873,7 +876,7 @@ func (c *Ctx) checkMaxZeroBeforeLoop(info *types.Info, fd *ast.FuncDecl) {
 		}
 	}
 	if loopIdx < 0 {
-		c.Undecided("R01e", key, fd.Pos(), "no top-level wait loop found in %s", fd.Name.Name)
+		c.Undecided(maxZeroRule, key, fd.Pos(), "no top-level wait loop found in %s", fd.Name.Name)
 		return
 	}
 	ok := false
@@ -886,7 +889,7 @@ func (c *Ctx) checkMaxZeroBeforeLoop(info *types.Info, fd *ast.FuncDecl) {
 			}
 		}
 	}
-	c.Check(ok, "R01e", key, fd.Body.List[loopIdx].Pos(), "%s stores max=0 (unbounded) before its wait loop; otherwise a writer over the limit and this reader wait on each other forever", fd.Name.Name)
+	c.Check(ok, maxZeroRule, key, fd.Body.List[loopIdx].Pos(), "%s stores max=0 (unbounded) before its wait loop; otherwise a writer over the limit and this reader wait on each other forever", fd.Name.Name)
 }
 
 func (c *Ctx) checkBackPressure(info *types.Info, fd *ast.FuncDecl) {
